@@ -6,7 +6,9 @@ void PolarGrid::RadialAnisotropicDivision(std::vector<double>& r_temp, const dou
 {
     // Calculate the percentage of refinement_radius.
     const double percentage = (refinement_radius - R0) / (R - R0);
-    assert(percentage >= 0.0 && percentage <= 1.0);
+    if (!(percentage >= 0.0 && percentage <= 1.0)) {
+        throw std::invalid_argument("The refinement radius of the anisotropic grid must lie in [R0, Rmax].");
+    }
 
     // 1) uniform division with nr=2^dummy_lognr - 2^aniso
     // 2) remaining nodes are added by refining the part centered around 2/3 of r
@@ -37,12 +39,15 @@ void PolarGrid::RadialAnisotropicDivision(std::vector<double>& r_temp, const dou
     int se;
 
     // Added by Allan Kuhn to fix a memory error
-    if (floor(nr * percentage) > nr - (n_elems_refined / 2)) {
-        int new_aniso   = log2(nr - floor(nr * percentage)) + 1;
+    // Index of the node the refinement is centered on (the outermost node for refinement_radius == R).
+    const int center = std::min(static_cast<int>(floor(nr * percentage)), nr - 1);
+    if (center > nr - (n_elems_refined / 2)) {
+        int new_aniso   = log2(nr - center) + 1;
         n_elems_refined = pow(2, new_aniso);
     }
 
-    se     = floor(nr * percentage) - n_elems_refined / 2;
+    // The refined window [se, se + n_elems_refined) must not start before the first node.
+    se     = std::max(center - n_elems_refined / 2, 0);
     int ee = se + n_elems_refined;
     // takeout
     int st = ceil((double)n_elems_refined / 4.0 + 1) - 1;
